@@ -86,9 +86,9 @@ META["C06"] = {
 
 META["C02"] = {
     "category": "proof",
-    "design_ref": "DESIGN.md section 5 / C02",
-    "technique": "Lean 4: refinement of the recursive recipient expansion (resolveActors: fuel, accumulators, error catching, monadic plumbing) to the declarative 'actor documents reachable within d levels of a fixed federation graph' by induction on fuel and on the recipient list, for every graph, depth and recipient list; dedupeIRIs proved to return each non-ignored recipient exactly once; Public filter lemma. Trace replay of the real code + an oracle that evaluates the theorem's reachActors on the graph read off the implementation's own Dereference answers and compares the BatchDeliver recipient set.",
-    "text": "Proved on the model for all graphs: skipped failures never fail the expansion, nothing beyond the depth limit is used, result = reachable actors in order; final list has no duplicates and never the ignored (own) inbox. The assembly of these parts inside prepare (stored inboxes first, removal of actors with a stored inbox, own inbox lookup) is validated per run by the oracle and by call-for-call replay, not yet by a theorem.",
+    "design_ref": "DESIGN.md section 5 / C02 and section 9.5",
+    "technique": "Lean 4: the whole of prepare refined to a declarative statement recipientsSpec (stored inbox of every addressed non-Public id that has one; inboxes of the actor documents reachable from the others within d levels of a fixed federation graph; first occurrences only; not the sender's inbox) for every activity, graph, stored-inbox table and depth, against a fault-free application that answers as that graph and table (prepare_det); the recursive expansion (resolveActors: fuel, accumulators, error catching) by induction on fuel and on the recipient list; dedupeIRIs returns each non-ignored recipient exactly once; Public filter lemma. Trace replay of the real code + an oracle that evaluates recipientsSpec on the scenario's ground truth and compares the BatchDeliver recipient set; no fetch outside the depth cone.",
+    "text": "Proved on the model for all inputs: run against an application that answers every Dereference as a fixed federation graph, every InboxForActor from a fixed table and holds the sender's actor document, prepare returns exactly recipientsSpec - unreachable / garbled / unknown documents skipped without failing, nothing beyond the depth limit used, Public filtered before any lookup, no duplicates, never the sender's own inbox. The hand-over itself (one BatchDeliver with the stripped payload and that list) is deliverS2S's definition. Order of recipients: as the spec for activities whose recipients are not merged through Go maps; compared as a set per run. Faulty applications (a failing lock or store lookup) end the delivery: C09/C05's theorems.",
     "note": "Trusted: Lean kernel, transcription (replay-validated), fakes. F2 (delivery failed when the last recipient was unreachable) was a genuine defect, repaired (fix: commit).",
 }
 
